@@ -174,7 +174,58 @@ def c10(k, ctx):
     ctx.assumptions = ["TLC 1.8 + Json/IOUtils", "the fresh-decoder reference is built from a clone of the same matrix by the same factory name"]
 
 
-PIPELINES = {"C01": c01, "C10": c10, "C08": c08, "C11": c11, "C02": c02, "C09": c09, "C17": c17}
+def c05(k, ctx):
+    ctx.rule = ("one case = one direct call of input_llr_quantize / send_var_messages / update_check_messages_and_vars on one of the 24 arithmetic types; 8-bit: "
+                "NaN, +-inf, 1e300, every (j+-1/2)/8 boundary with its float neighbours, message vectors of degree 1..200 (random, +-127, alternating, "
+                "degree one with |llr| around 116), layered states inside |var| <= 127*(deg+1); floats: degrees 1..200 at four scales; "
+                "non-trivial = distinct calls where some clip/saturation/deg-1/Jones branch is active (8-bit: |sum| > 127 or degree one or quantiser boundary) or float calls of degree >= 2")
+    ctx.tlc_mc("MC_Arith", "MC_Arith_thorough.cfg" if ctx.thorough else "MC_Arith.cfg")
+    ctx.vh("gen", "i2s")
+    recs, rej = ctx.validate("Trace_C05")
+    ctx.require_events("Quant8", "Var8", "Layer8", "VarF", "LayerF")
+    for r in recs:
+        if r["o"] != "ok":
+            continue
+        e = r["e"]
+        if e == "Quant8" and (r["cmp"] == "eq" or abs(r["fl"]) >= 126 or r["cls"] != "fin"):
+            ctx.nontrivial_keys.add(k.key(e, r["arith"], r["cls"], r["fl"], r["cmp"]))
+        elif e == "Var8" and (len(r["in"]) == 1 or abs(r["llr"] + sum(p[1] for p in r["in"])) > 127):
+            ctx.nontrivial_keys.add(k.key(e, r["arith"], r["llr"], r["in"]))
+        elif e == "Layer8" and any(abs(v) > 127 for v in r["vars"]):
+            ctx.nontrivial_keys.add(k.key(e, r["arith"], r["olds"], r["vars"]))
+        elif e in ("VarF", "LayerF") and r["d"] >= 2:
+            ctx.nontrivial_keys.add(k.key(e, r["arith"], r["i"]))
+    ctx.extra["arithmetics"] = len({r["arith"] for r in recs})
+    ctx.samples = [k.sample_case(recs, 5), k.sample_case(recs, 400), k.sample_case(recs, recs[-1]["i"])]
+    ctx.assumptions = ["TLC 1.8 + Json/IOUtils", "harness built with overflow-checks and debug-assertions so wrapping arithmetic in /repo panics",
+                       "float references (f64 sums) and their distance in centibels are computed by the harness; the tolerance and inequality are TLC's"]
+
+
+def c04(k, ctx):
+    ctx.rule = ("one case = one direct call of send_check_messages on one of the 24 arithmetic types with shuffled non-contiguous source ids; 8-bit: degree 2 on a lattice "
+                "(every pair in [-127,127]^2 in thorough), degree 3 on a 7^3 (17^3) lattice, random degrees up to 30 in 8 classes (ties, around the hard limit, +-127, one zero); "
+                "floats: degrees 2..30 at five scales inside the working range + out-of-range probes; non-trivial = distinct calls with degree >= 3 or with a zero, a tie or a "
+                "hard-limited magnitude among the inputs")
+    ctx.tlc_mc("MC_Arith", "MC_Arith_thorough.cfg" if ctx.thorough else "MC_Arith.cfg")
+    ctx.vh("gen", "i2s")
+    recs, rej = ctx.validate("Trace_C04", timeout=3000)
+    ctx.require_events("Check8", "CheckF")
+    for r in recs:
+        if r["o"] != "ok":
+            continue
+        if r["e"] == "Check8":
+            v = [p[1] for p in r["in"]]
+            if len(v) >= 3 or 0 in v or abs(v[0]) == abs(v[-1]) or max(abs(x) for x in v) >= 100:
+                ctx.nontrivial_keys.add(k.key(r["arith"], r["in"]))
+        elif r["d"] >= 3 or r["tied"]:
+            ctx.nontrivial_keys.add(k.key(r["arith"], r["in"]))
+    ctx.extra["arithmetics"] = len({r["arith"] for r in recs})
+    ctx.samples = [k.sample_case(recs, 5), k.sample_case(recs, recs[-1]["i"] - 20)]
+    ctx.assumptions = ["TLC 1.8 + Json/IOUtils", "float references: stable pairwise box-plus in f64 (harness oracle); 8-bit references: 8 x real-valued min*-approx / A-Min* at inputs/8",
+                       "tolerances (Arith.tla) follow the error model K*d*eps*(1+e^|y|) for phi/tanh inside the working range |y| <= 30 (f64) / 12 (f32)"]
+
+
+PIPELINES = {"C04": c04, "C05": c05, "C01": c01, "C10": c10, "C08": c08, "C11": c11, "C02": c02, "C09": c09, "C17": c17}
 NOT_YET = {}
 
 
